@@ -51,6 +51,12 @@ def gen(rng, tier):
                 c0 = G.float_simplex(rng, ty, 2)
                 c1 = G.float_simplex(rng, ty, 2)
                 ay = num.rnd(ty, 0.02 + 0.96 * rng.unit())
+            if r == 9 and rng.chance(1, 2):
+                # nearly dogmatic antecedent: u_x far below the grid but far above machine epsilon
+                tag = "near_dogmatic_antecedent"
+                uu = num.rnd(ty, rng.choice([1e-5, 1e-7, 1e-9, 1e-10, 1e-12, 4e-14] if ty == "f64" else [1e-3, 1e-4, 1e-5, 3e-6]))
+                sx = G.simplex_with_u(rng, ty, 2, uu)
+                x = [sx[0][0], sx[0][1], sx[1], x[3]]
             if not in_domain(x, ay):
                 continue
             k += 1
